@@ -273,7 +273,7 @@ def c08(run):
     else:
         D.correspond(run, 'cbor', [], reference_theorem='C08_decode_encode / C08_duplicate_key_refused / C08_indefinite_refused (model of the CBOR library)')
         D.correspond(run, 'msgparts', [], reference_theorem='C08_labels / C08_wrong_arity_refused (header maps, recipients, KDF contexts)')
-        D.correspond(run, 'c08probe', [])
+        D.correspond(run, 'c08probe', [], reference_theorem='C08_malformed_refused / C08_duplicate_key_refused_at_any_depth (typed payloads and members)')
     run.cov['rule'] = ('generated CBOR items (all head widths, any map order, depth to 3) decoded and re-encoded; per item one malformation: trailing bytes, truncation, indefinite length at a random position, reserved head, duplicate keys (also after integer normalisation, nested up to 2 levels), invalid UTF-8, nesting 30..34, counts beyond the limits, random bytes; '
                        'header maps with labels of several Go integer types, insertion orders and nested values encoded 3 ways and compared; recipients (one nesting level, two refused), KDF contexts with nil/empty/non-empty members, label range probes; wrong-typed payload members of COSE_Mac0')
     return D.finish(run, 'proof')
